@@ -1,4 +1,26 @@
+(* C17 property theorems.  Only `exact` of lemmas proved in the *_Proofs files. *)
 From Coq Require Import ZArith List.
-From PV Require Import C17.C17_Model C17.C17_Proofs.
-Theorem c17_placeholder : True. Proof. exact placeholder. Qed.
-Print Assumptions c17_placeholder.
+From PV Require Import C17.C17_Model C17.C17_RM_Proofs.
+Import ListNotations.
+Local Open Scope Z_scope.
+
+(* RangeModule: after ANY sequence of addRange / removeRange / removeFrom / clear starting from
+   the empty module, the intervals are sorted, non-empty, pairwise disjoint and non-adjacent (WF),
+   and the set of covered points is exactly the set-algebra result (add = union, remove =
+   difference). *)
+Theorem rm_set_semantics : forall ops : list rm_op,
+  WF (rm_run ops) /\ forall x, covers (rm_run ops) x <-> spec_run ops x.
+Proof. exact rm_set_semantics_proof. Qed.
+Print Assumptions rm_set_semantics.
+
+(* queryRefillRange on a well-formed module: {0,0} exactly when every byte of [l,r) is covered;
+   otherwise a range inside [l,r) whose first and last bytes are uncovered and that contains
+   every uncovered byte of [l,r). *)
+Theorem rm_query_spec : forall m l r, WF m ->
+  let q := queryRefillRange m l r in
+  (q = (0, 0) /\ (forall x, l <= x < r -> covers m x))
+  \/ (l < r /\ l <= fst q /\ fst q < snd q /\ snd q <= r
+      /\ ~ covers m (fst q) /\ ~ covers m (snd q - 1)
+      /\ (forall x, l <= x < r -> ~ covers m x -> fst q <= x < snd q)).
+Proof. exact queryRefillRange_spec. Qed.
+Print Assumptions rm_query_spec.
